@@ -84,6 +84,24 @@ pub mod lfsr {
         kani::cover!(rj::fold(unsafe { LAST_READ } ^ pool, 4) == 0, "no throw-away round");
     }
 
+    /// Quick-tier variant of `fold_var`: the loop-count reading is restricted
+    /// to those that select 0 or 1 throw-away rounds (the full 0..15 range
+    /// takes 390 s and runs in the thorough tier).
+    #[kani::proof]
+    #[kani::unwind(66)]
+    pub fn fold_var_small() {
+        let mut r = arbitrary_rng();
+        let pool = r.verif_pool();
+        let time: u64 = kani::any();
+        let before = r.verif_state();
+        r.verif_lfsr_time(time, true);
+        kani::assume(rj::fold(unsafe { LAST_READ } ^ pool, 4) <= 1);
+        assert!(r.verif_pool() == rj::lfsr(pool, time));
+        assert!(reads() == 1);
+        assert!(r.verif_state() == before);
+        kani::cover!(rj::fold(unsafe { LAST_READ } ^ pool, 4) == 1, "one throw-away round");
+    }
+
     /// C15: for each fixed time value the fold is one-to-one in the pool.
     #[kani::proof]
     #[kani::unwind(66)]
@@ -332,6 +350,8 @@ pub mod collect {
             }
             // bound of the claim: at most MAX_STUCK stuck measurements per call
             kani::assume(M_STUCK <= MAX_STUCK);
+            // prefix harnesses: cut paths with more than PREFIX_CAP measurements
+            kani::assume(M_N < PREFIX_CAP);
             M_EXPECT_POOL = if stuck { p } else { p.rotate_left(7) };
             M_N += 1;
         }
@@ -384,6 +404,38 @@ pub mod collect {
     #[kani::stub(rand_jitter::JitterRng::stir_pool, stir_stub)]
     pub fn s4() {
         body::<4>()
+    }
+
+    pub static mut PREFIX_CAP: usize = usize::MAX;
+
+    /// Every round count 1..=255 (C14: the round arithmetic of the collection
+    /// loop must not overflow; only 0 is documented to panic): the first 5
+    /// measurements of a collection for an arbitrary round count. Paths with
+    /// more measurements are cut by an assumption in the fold stub (bound of
+    /// this harness: a prefix of the loop; its header and per-iteration
+    /// arithmetic are executed for every round count).
+    #[kani::proof]
+    #[kani::unwind(8)]
+    #[kani::stub(rand_jitter::JitterRng::memaccess, memaccess_stub)]
+    #[kani::stub(rand_jitter::JitterRng::lfsr_time, lfsr_model_stub)]
+    #[kani::stub(rand_jitter::JitterRng::stir_pool, stir_stub)]
+    #[allow(static_mut_refs)]
+    pub fn any_rounds_prefix() {
+        unsafe {
+            MAX_STUCK = 1;
+            PREFIX_CAP = 5;
+        }
+        let mut r = arbitrary_rng();
+        let (rounds, _, _) = r.verif_state();
+        unsafe {
+            M_EXPECT_POOL = r.verif_pool();
+        }
+        kani::cover!(rounds == 255, "maximal round count");
+        let v = r.next_u64();
+        // only reachable for rounds <= 4
+        unsafe {
+            assert!(M_OK && v == STIR_OUT && (rounds as usize) < 5);
+        }
     }
 
     /// timer_stats(var): two readings around one memaccess and one fold of
